@@ -1104,6 +1104,77 @@ def r12m(ctx, reg):
             ctx.note(f"R12m: frozen exception {key} no longer exists")
 
 
+_FIXTURE_R = '''
+class Frame:
+    def __init__(self, name=None, presentation_class=None, presentation_style=None, layer=None):
+        pass
+    @classmethod
+    def text_frame(cls, text, presentation_class=None, presentation_style=None, layer=None):
+        return cls(presentation_class=presentation_class, presentation_style=presentation_class, layer=layer)
+    @classmethod
+    def image_frame(cls, image, presentation_class=None, presentation_style=None, layer=None):
+        return cls(presentation_class=presentation_class, presentation_style=presentation_style, layer=layer)
+'''
+
+
+def _crossed_keywords(fn: ast.FunctionDef, callee_params):
+    """keywords `a=b` of calls in fn where a and b are both parameters of fn, a != b, and the callee declares both a and b"""
+    own = {a.arg for a in fn.args.posonlyargs + fn.args.args + fn.args.kwonlyargs} - {"self", "cls"}
+    out = []
+    for c in walk_no_nested(fn):
+        if not isinstance(c, ast.Call):
+            continue
+        for k in c.keywords:
+            if k.arg and isinstance(k.value, ast.Name) and k.value.id in own and k.arg in own and k.arg != k.value.id:
+                if any({k.arg, k.value.id} <= ps for ps in callee_params(c)):
+                    out.append((c, k))
+    return out
+
+
+def r12r(ctx):
+    """An argument is handed on under its own name.
+
+    The factories (`Frame.text_frame`, `Frame.image_frame`, `Table.…`) and the shortcuts take the same keyword arguments as the constructor
+    they call and forward them one by one.  A copied line with only its left side edited — `presentation_style=presentation_class` — still
+    type-checks: the value of one argument is stored under the other's attribute, and the argument that should have gone there is dropped.
+    Rule (expected count 0, fixture evaluated on every run): no call passes `a=b` where a and b are two different parameters of the calling
+    function and the callee declares both.
+    """
+    repo = ctx.repo
+    ctx.rule("R12r", "no keyword argument is fed from a sibling parameter that the callee also declares", floor=200)
+    tree = ast.parse(_FIXTURE_R)
+    init_ps = [{"name", "presentation_class", "presentation_style", "layer"}]
+    got = sorted(fn.name for fn in ast.walk(tree) if isinstance(fn, ast.FunctionDef) and _crossed_keywords(fn, lambda c: init_ps))
+    if got != ["text_frame"]:
+        raise AnalysisError(f"R12r fixture: detector broken: {got}")
+    byname: dict[str, list[set]] = {}
+    for g in repo.all_funcs():
+        byname.setdefault(g.name, []).append({a.arg for a in g.all_params()})
+    for c in repo.all_classes():
+        for g in c.methods.get("__init__", []):
+            byname.setdefault(c.name, []).append({a.arg for a in g.all_params()})
+    for f in repo.all_funcs():
+        if f.kind == "nested":
+            continue
+
+        def callee_params(call, f=f):
+            nm = call_name(call)
+            if nm == "cls" and f.cls is not None:
+                g = f.cls.lookup("__init__")
+                return [{a.arg for a in g.all_params()}] if g is not None else []
+            return byname.get(nm, [])
+
+        bad = _crossed_keywords(f.node, callee_params)
+        has_kw = any(isinstance(c, ast.Call) and c.keywords for c in walk_no_nested(f.node))
+        if not has_kw:
+            continue
+        ctx.instance("R12r", f"{f.file}:{f.ident}", "keywords forwarded under their own names", ok=not bad, nontrivial=bool(bad), line=f.node.lineno)
+        for c, k in bad[:1]:
+            ctx.report("R12r", f, c, f"{k.arg}={k.value.id}",
+                       f"{f.ident} passes its parameter `{k.value.id}` as `{k.arg}=` to `{call_name(c)}`, which has a parameter `{k.value.id}` of its own: the value lands under the wrong "
+                       f"attribute and the caller's `{k.arg}` is dropped — the object does not expose what it was built with")
+
+
 def run(ctx):
     reg = build_registry(ctx.repo)
     ctx.extra["registry"] = {"modules_in_import_order": len(reg.order), "registrations": len(reg.regs), "tags": len(reg.tag2cls),
@@ -1124,6 +1195,7 @@ def run(ctx):
     r12o(ctx, reg)
     r12p(ctx, reg)
     r12q(ctx, reg)
+    r12r(ctx)
     # `clone` is one of the access paths of the property: a clone must be a detached copy of its own (rules shared with C10)
     from .c10 import r10c, r10g
     r10c(ctx)
@@ -1141,6 +1213,8 @@ def run(ctx):
 from ..selftest import Seed, unparse_seed  # noqa: E402
 
 SEEDS = [
+    Seed("Frame.text_frame feeds presentation_style from presentation_class", "fault", "src/odfdo/frame.py",
+         "            presentation_style=presentation_style,\n            **kwargs,\n        )\n        frame.set_text_box(", "            presentation_style=presentation_class,\n            **kwargs,\n        )\n        frame.set_text_box(", "R12r"),
     Seed("creator read with an absolute XPath again", "fault", "src/odfdo/mixin_dc_creator.py",
          '        element = self.get_element("descendant::dc:creator")\n        if element is None:\n            return None', '        element = self.get_element("//dc:creator")\n        if element is None:\n            return None', "R12k"),
     Seed("TOC reads its outline level from the first TOC source of the document", "fault", "src/odfdo/toc.py",
